@@ -245,11 +245,26 @@ func New(spec Spec) *World {
 		w.IdP.TokenLife = spec.TokenLife
 	}
 	w.IdP.Hook = w.idpHook
+	w.IdP.Tagger = func() (int, int) {
+		if s := vsched.Active(); s != nil {
+			return s.Running(), s.Steps()
+		}
+		return -1, 0
+	}
 	w.JWKS = &SpyJWKS{W: w, Real: jwksReal}
 	w.Gen = &Gen{}
 	if spec.RealGen {
 		w.Gen.Real = oidc.NewRandomGenerator()
 	}
+	return w
+}
+
+// NewWithConfig builds a world around an existing OIDCConfig object (shared with other components).
+func NewWithConfig(spec Spec, cfg *oidcv1.OIDCConfig) *World {
+	w := New(spec)
+	w.Cfg = cfg
+	w.IdP.ClientID = cfg.GetClientId()
+	w.IdP.RedirectURI = cfg.GetCallbackUri()
 	return w
 }
 
